@@ -177,3 +177,14 @@ Proof.
   cbn zeta. split; [cbn; repeat split; discriminate|]. split; [vm_compute; repeat constructor|].
   split; [exact I | vm_compute; discriminate].
 Qed.
+
+(* any two backmp11 configurations (favor_runtime_speed with flat_fold or function_pointer_array, favor_compile_time),
+   same switch policy, on every history with stored events backmp11 is specified on: nothing but the numeric result
+   code can differ *)
+Theorem C13_backmp11_configurations_same_behaviour_with_stored_events : forall cf1 cf2 md l,
+  c_be cf1 = Mp11 -> c_be cf2 = Mp11 -> c_pol cf1 = c_pol cf2 -> flat_events md -> core (md_root md) ->
+  m_hist (md_root md) = HNone -> mp11_entry_throw_resets = true -> qbracketed false l ->
+  2 * count_enq l + depth (md_root md) + 3 <= default_fuel ->
+  Forall2 same_step_strict (run cf1 md l) (run cf2 md l).
+Proof. exact mp11_same_queue_behaviour. Qed.
+Print Assumptions C13_backmp11_configurations_same_behaviour_with_stored_events.
